@@ -137,11 +137,32 @@ static void reinterpret_ratio_probe(Rng& g) {
 	nontrivial(true);
 }
 
+// an array constructed from an array / array_ref of an element type that is only EXPLICITLY convertible (complex<double> -> complex<float>, a type with an explicit
+// constructor): extents are preserved - including first indices other than 0 - and elements are converted one by one in canonical order
+struct FromInt { long v = 0; FromInt() = default; explicit FromInt(int x) : v{10L * x} {} };
+static void explicit_conversion_probe(Rng& g) {
+	L const r = g.in(1, 3), q = g.in(1, 4), b0 = g.in(-3, 5), b1 = g.in(-2, 6); int const form = int(g.below(5)); static char const* FN[] = {"array&", "array const&", "array&&", "array_ref&", "array_ref const&"};
+	describe(std::string("explicit conversion probe ") + FN[form] + " extents [" + std::to_string(b0) + "," + std::to_string(b0 + r) + ")x[" + std::to_string(b1) + "," + std::to_string(b1 + q) + ")"); sig_mix("explicit-conversion"); sig_mix(std::uint64_t(form));
+	op((std::string("array(explicitly-convertible-source):") + FN[form]).c_str()); count(std::string("explicit-conversion:") + FN[form]); std::string const K = std::string("C12:array(explicitly-convertible-source):") + FN[form] + ":";
+	multi::extensions_t<2> const ex({b0, b0 + r}, {b1, b1 + q}); multi::array<int, 2> SI(ex); multi::array<std::complex<double>, 2> SZ(ex); { int k = 0; for(auto& e : SI.elements()) e = ++k; k = 0; for(auto& e : SZ.elements()) { ++k; e = std::complex<double>(k, -k); } }
+	auto chk = [&](auto const& DI, auto const& DZ) { if(!(DI.extensions() == ex) || !(DZ.extensions() == ex)) { violation(K + "extents", "the converted array does not have the source's extensions (first indices " + std::to_string(L(DI.extension().first())) + " / " + std::to_string(L(DZ.extension().first())) + ", source " + std::to_string(b0) + ")"); return; }
+		int k = 0; for(auto const& e : DI.elements()) { ++k; if(e.v != 10L * k) { violation(K + "elements", "element " + std::to_string(k - 1) + " is not the explicit conversion of the source element"); return; } } k = 0; for(auto const& e : DZ.elements()) { ++k; if(e != std::complex<float>(float(k), float(-k))) { violation(K + "elements", "complex<float> element differs from the converted complex<double>"); return; } } };
+	switch(form) {
+	case 0: { multi::array<FromInt, 2> DI(SI); multi::array<std::complex<float>, 2> DZ(SZ); chk(DI, DZ); break; }
+	case 1: { multi::array<FromInt, 2> DI(std::as_const(SI)); multi::array<std::complex<float>, 2> DZ(std::as_const(SZ)); chk(DI, DZ); break; }
+	case 2: { auto SI2 = SI; auto SZ2 = SZ; multi::array<FromInt, 2> DI(std::move(SI2)); multi::array<std::complex<float>, 2> DZ(std::move(SZ2)); chk(DI, DZ); break; }
+	case 3: { multi::array_ref<int, 2> RI(ex, SI.data_elements()); multi::array_ref<std::complex<double>, 2> RZ(ex, SZ.data_elements()); multi::array<FromInt, 2> DI(RI); multi::array<std::complex<float>, 2> DZ(RZ); chk(DI, DZ); break; }
+	default: { multi::array_ref<int, 2> const RI(ex, SI.data_elements()); multi::array_ref<std::complex<double>, 2> const RZ(ex, SZ.data_elements()); multi::array<FromInt, 2> DI(RI); multi::array<std::complex<float>, 2> DZ(RZ); chk(DI, DZ); break; }
+	}
+	nontrivial(true);
+}
+
 int main(int argc, char** argv) {
 	cfg.maxD = 3;
 	return main_loop(argc, argv, [&](Case& c) {
 		static bool init = false; if(!init) { init = true; auto& a = st().args; for(std::size_t i = 0; i + 1 < a.size(); ++i) { if(a[i] == "--maxext") cfg.max_ext = std::atoi(a[i + 1].c_str()); if(a[i] == "--maxops") cfg.max_ops = std::atoi(a[i + 1].c_str()); } }
 		if(c.k % 64 == 5) { reinterpret_ratio_probe(c.rng); return; }
+		if(c.k % 64 == 37) { explicit_conversion_probe(c.rng); return; }
 		Prog p = gen_prog(c.rng, cfg); for(auto& o : p.ops) if(o.cat == 1 && c.rng.chance(1, 2)) o.cat = 0;
 		switch(p.root.size()) { case 1: one<1>(c, p); break; case 2: one<2>(c, p); break; default: one<3>(c, p); break; }
 	});
